@@ -898,12 +898,17 @@ func run(ctx *Ctx) *Result {
 			groupEdit := false
 			mode := ""
 			for _, cmd := range cmds {
-				if strings.HasPrefix(cmd, "object-group network ") {
+				if strings.HasPrefix(cmd, "object-group network ") || strings.HasPrefix(cmd, "object-group service ") {
 					mode = strings.Fields(cmd)[2]
-				} else if strings.HasPrefix(cmd, "network-object ") || strings.HasPrefix(cmd, "no network-object ") {
+				} else if strings.HasPrefix(cmd, "network-object ") || strings.HasPrefix(cmd, "no network-object ") ||
+					strings.HasPrefix(cmd, "port-object ") || strings.HasPrefix(cmd, "no port-object ") {
 					// only edits of a SHARED group are outside the property: a group that one access-list line
 					// alone references (on the device and in the result) is part of that line
-					if _, existed := c.dev.Groups[mode]; existed && (groupRefCount(c.dev, mode) > 1 || groupRefCount(final, mode) > 1) {
+					_, existed := c.dev.Groups[mode]
+					if _, ok := c.dev.SGroups[mode]; ok {
+						existed = true
+					}
+					if existed && (groupRefCount(c.dev, mode) > 1 || groupRefCount(final, mode) > 1) {
 						groupEdit = true
 					}
 				} else {
@@ -962,7 +967,8 @@ func run(ctx *Ctx) *Result {
 								}
 								pred := "acl_step_unsafe_other"
 								switch {
-								case strings.HasPrefix(cmds[k], "network-object ") || strings.HasPrefix(cmds[k], "no network-object "):
+								case strings.HasPrefix(cmds[k], "network-object ") || strings.HasPrefix(cmds[k], "no network-object ") ||
+									strings.HasPrefix(cmds[k], "port-object ") || strings.HasPrefix(cmds[k], "no port-object "):
 									// the member list of a group that only this access-list line uses is changed in place
 									// while the lines around it are still the old ones (finding F-C14g)
 									pred = "unshared_group_members_changed_before_lines"
